@@ -44,6 +44,7 @@ var traced = []struct{ name, file, fn, skipIf string }{
 	{"VerifyBlock", "core/validation/block_validator.go", "VerifyBlock", "completely"},
 	{"VerifyHeader", "core/validation/block_validator.go", "VerifyHeader", ""},
 	{"VerifyMultiSignature", "core/signature/signature.go", "VerifyMultiSignature", ""},
+	{"sigVerifyWrapper", "core/signature/signature.go", "verify", ""},
 	{"BlockDeserialization", "core/types/block.go", "Deserialization", ""},
 	{"AddStateMerkleTreeRoot", "core/store/ledgerstore/state_store.go", "AddStateMerkleTreeRoot", ""},
 	{"AddBlockMerkleTreeRoot", "core/store/ledgerstore/state_store.go", "AddBlockMerkleTreeRoot", ""},
@@ -77,7 +78,7 @@ func traceFunc(repo, file, fn, skipIf string) ([]string, error) {
 	var out []string
 	interesting := map[string]bool{"signature.VerifyMultiSignature": true, "types.AddressFromBookkeepers": true,
 		"SaveNotify": true, "VerifyHeader": true, "ld.GetHeaderByHash": true, "common.ComputeMerkleRoot": true,
-		"s.Verify": true, "s.Deserialize": true, "transaction.Deserialization": true}
+		"s.Verify": true, "verify": true, "s.Deserialize": true, "transaction.Deserialization": true}
 	var walk func(n ast.Node) bool
 	walk = func(n ast.Node) bool {
 		switch x := n.(type) {
@@ -107,6 +108,24 @@ func traceFunc(repo, file, fn, skipIf string) ([]string, error) {
 			}
 		case *ast.RangeStmt:
 			out = append(out, "range:"+pr(fset, x.X))
+		case *ast.DeferStmt:
+			if _, ok := x.Call.Fun.(*ast.FuncLit); ok {
+				out = append(out, "defer:func")
+				// a deferred closure: record whether it recovers and what it assigns
+				ast.Inspect(x.Call.Fun, func(m ast.Node) bool {
+					switch y := m.(type) {
+					case *ast.CallExpr:
+						if id, ok := y.Fun.(*ast.Ident); ok && id.Name == "recover" {
+							out = append(out, "defer:recover")
+						}
+					case *ast.AssignStmt:
+						out = append(out, "defer:assign:"+pr(fset, y))
+					}
+					return true
+				})
+				return false
+			}
+			out = append(out, "defer")
 		case *ast.BranchStmt:
 			out = append(out, "branch:"+x.Tok.String())
 		case *ast.CallExpr:
